@@ -1,6 +1,7 @@
 import SkaModel.Core.Loop
 import SkaModel.Props.C01
 import SkaModel.Props.C01seq
+import SkaModel.Props.C01choice
 
 /-!
 # C14 — a pool active-learning loop labels every sample exactly once
@@ -241,6 +242,57 @@ theorem maskedSeq_loop {α : Type} [LinearOrder α] {β : Type} [LinearOrder β]
     (hrows y') (hcand y') (hmask y')
   obtain ⟨-, hu, -⟩ := unlabeledIdx_spec y'
   exact ⟨by rw [h1, hs1], h2, fun i hi => (hu i).mp (h3 i hi)⟩
+
+/-- The drawing strategies (`Badge`, `Falcun`) discharge the hypothesis of `alLoop_exhausts` through
+`choiceSeq_valid`: if at every labeling the query draws `min(b, #unlabeled)` positions with `choice` from weight
+vectors over the unlabeled samples (whatever the weights are) that satisfy `choice`'s preconditions and carry no
+mass at the earlier picks, the loop labels every sample exactly once. -/
+theorem choiceSeq_loop {α : Type} [Field α] [LinearOrder α] [IsStrictOrderedRing α]
+    (b : Nat) (hb : 0 < b)
+    (rowsOf : List Bool → List (List α)) (usOf : List Bool → List α)
+    (hshape : ∀ y, (rowsOf y).length = min b (unl y) ∧ (rowsOf y).length = (usOf y).length)
+    (hlen : ∀ y, ∀ row ∈ rowsOf y, row.length = unl y)
+    (hprob : ∀ y, ∀ k, ∀ hk : k < (rowsOf y).length, ∀ hk' : k < (usOf y).length,
+        Ska.Seq.probOkB (rowsOf y)[k] (usOf y)[k] = true)
+    (hzero : ∀ y, Ska.Seq.zeroOkB [] (rowsOf y) (Ska.Seq.choicePicks (rowsOf y) (usOf y)) = true) :
+    ∀ y, Exhausts y b (alLoop (fun y => (Ska.Seq.choicePicks (rowsOf y) (usOf y)).map
+        (fun p => (unlabeledIdx y).getD p 0)) (unl y) y) := by
+  intro y
+  refine alLoop_exhausts _ b hb ?_ (unl y) y (Nat.le_refl _)
+  intro y' _
+  obtain ⟨hs1, hs2⟩ := hshape y'
+  obtain ⟨h1, h2, h3⟩ := Ska.C01choice.choiceSeq_valid [] (rowsOf y') (usOf y') List.nodup_nil hs2
+    (hprob y') (hzero y')
+  obtain ⟨hnd, hu, -⟩ := unlabeledIdx_spec y'
+  have hlt : ∀ p ∈ Ska.Seq.choicePicks (rowsOf y') (usOf y'), p < (unlabeledIdx y').length := by
+    intro p hp
+    obtain ⟨k, hk, rfl⟩ := List.getElem_of_mem hp
+    have hk' : k < (rowsOf y').length := by omega
+    obtain ⟨v, hv, -⟩ := h3 k hk' hk
+    rw [unlabeledIdx_length, ← unl, ← hlen y' _ (List.getElem_mem hk')]
+    rcases Nat.lt_or_ge (Ska.Seq.choicePicks (rowsOf y') (usOf y'))[k] ((rowsOf y')[k]).length with h | h
+    · exact h
+    · rw [List.getElem?_eq_none h] at hv; cases hv
+  obtain ⟨m1, m2, m3⟩ := Ska.C01choice.map_positions_valid (unlabeledIdx y') hnd _ (by simpa using h2) hlt
+  exact ⟨by rw [m1, h1, hs1], m2, fun i hi => (hu i).mp (m3 i hi)⟩
+
+/-- `_greedy_sampling` (GreedySamplingX / GreedySamplingTarget) discharges the hypothesis through
+`shrinkSeq_valid`: the list of remaining candidates starts as the unlabeled samples; whatever the scores are, if
+the loop runs for `min(b, #unlabeled)` steps it labels every sample exactly once. -/
+theorem shrinkSeq_loop {α : Type} [LinearOrder α] {β : Type} [LinearOrder β] [Zero β]
+    (b : Nat) (hb : 0 < b)
+    (rowsOf : List Bool → List (List (Option α))) (noiseOf : List Bool → List (List β))
+    (picksOf : List Bool → List Nat)
+    (hshape : ∀ y, (rowsOf y).length = min b (unl y) ∧ (rowsOf y).length = (noiseOf y).length)
+    (hrun : ∀ y, Ska.Seq.shrinkSeq (unlabeledIdx y) (rowsOf y) (noiseOf y) = some (picksOf y)) :
+    ∀ y, Exhausts y b (alLoop picksOf (unl y) y) := by
+  intro y
+  refine alLoop_exhausts _ b hb ?_ (unl y) y (Nat.le_refl _)
+  intro y' _
+  obtain ⟨hs1, hs2⟩ := hshape y'
+  obtain ⟨hnd, hu, -⟩ := unlabeledIdx_spec y'
+  obtain ⟨h1, h2, h3⟩ := Ska.C01choice.shrinkSeq_valid (unlabeledIdx y') (rowsOf y') (noiseOf y') (picksOf y') hnd (hrun y')
+  exact ⟨by rw [h1, ← hs2, Nat.min_self, hs1], h2, fun i hi => (hu i).mp (h3 i hi)⟩
 
 /-! ### non-vacuity -/
 
